@@ -15,7 +15,7 @@ from vf import drivers
 PROPERTY = "C07"
 LEVEL = "exploration"
 SHARDS = {"quick": 4, "thorough": 16}
-REQUIRED = ["path-model", "open-audit", "own-path-sweep", "redirect-follow", "audit-open-events-seen"]
+REQUIRED = ["path-model", "open-audit", "own-path-sweep", "redirect-follow", "audit-open-events-seen", "mounted-app"]
 RULE = ("Sandbox root/{secret.txt, static-secret.txt, static2/s.txt, static/...}; served directory static/ = {a.txt, index.html, x.html, ..name, .hidden, "
         "%2e%2e, é.txt, dir/{index.html,b.txt}, dir2/c.txt (no index), static/inner.txt}. Exhaustive request paths over the 21-segment alphabet {'', '.', '..', "
         "a.txt, dir, dir2, ..name, %2e%2e, index.html, x, x.html, é.txt, static, static2, secret.txt, nope, index, b.txt, .hidden, static-secret.txt, sock (a unix socket: exists but is not a regular file)} to depth 3 (thorough 4) with/without "
@@ -120,9 +120,9 @@ class Audit:
                 self.events.append(p)
 
 
-def observe(iface, app, path, audit):
+def observe(iface, app, path, audit, root=""):
     from baize.exceptions import HTTPException
-    req = drivers.Req(path=path.encode("utf-8"), server=("t", 80))
+    req = drivers.Req(path=path.encode("utf-8"), root=root.encode("utf-8"), server=("t", 80))
     audit.events.clear()
     audit.window = True
     try:
@@ -142,7 +142,10 @@ def observe(iface, app, path, audit):
         return ("200", body.decode("utf-8", "replace")), list(audit.events)
     if st in (301, 302, 307, 308):
         loc = hdr.get("location", "")
-        return ("307", unquote(urlsplit(loc).path)), list(audit.events)
+        lp = unquote(urlsplit(loc).path)
+        if root:  # the redirect names the full URL: mount point + path
+            lp = lp[len(root):] if lp.startswith(root) else "<location lost the mount point>" + lp
+        return ("307", lp), list(audit.events)
     return (str(st),), list(audit.events)
 
 
@@ -171,11 +174,11 @@ def classify(kind, served_abs, path, got, exp):
     return f"other|got-{got[0]}"
 
 
-def judge(ctx, audit, iface, kind, form, served_abs, app, path):
+def judge(ctx, audit, iface, kind, form, served_abs, app, path, root=""):
     exp = model(kind, served_abs, path)
-    got, opens = observe(iface, app, path, audit)
+    got, opens = observe(iface, app, path, audit, root)
     ctx.mon("path-model")
-    case = {"iface": iface, "app": kind, "directory_form": form, "path": path}
+    case = {"iface": iface, "app": kind, "directory_form": form, "path": path, "mounted_at": root}
     if got not in exp:
         ctx.violation(f"{classify(kind, served_abs, path, got, exp)}|{iface}" if got[0] != "EXC" else classify(kind, served_abs, path, got, exp),
                       case, f"expected one of {sorted(exp)}, got {got}")
@@ -187,7 +190,7 @@ def judge(ctx, audit, iface, kind, form, served_abs, app, path):
     # a Pages redirect must lead to the directory's index page
     if kind == "Pages" and got[0] == "307" and got in exp:
         ctx.mon("redirect-follow")
-        got2, opens2 = observe(iface, app, got[1], audit)
+        got2, opens2 = observe(iface, app, got[1], audit, root)
         exp2 = model(kind, served_abs, got[1])
         if got2 not in exp2 or got2[0] == "307":
             ctx.violation(f"pages|redirect-target-does-not-serve-index|{iface}", case, f"redirected to {got[1]!r} which gives {got2}")
@@ -258,6 +261,22 @@ def run(ctx):
                                 continue
                             judge(ctx, audit, iface, kind, form, abs_dir, app, path)
                             ctx.case_enum(nt)
+        # the app mounted below a prefix (SCRIPT_NAME / root_path non-empty), also with paths that start with the same text as the mount point
+        ridx = 0
+        for root in ("/static", "/dir", "/a.txt", "/assets"):
+            for depth in (1, 2):
+                for segs in itertools.product(SEGS + ["assets"], repeat=depth):
+                    ridx += 1
+                    if not ctx.mine(ridx):
+                        continue
+                    for trail in ("", "/"):
+                        path = "/" + "/".join(segs) + trail
+                        for (form, iface, kind), (abs_dir, app) in apps.items():
+                            if form != "absolute":
+                                continue
+                            judge(ctx, audit, iface, kind, form, abs_dir, app, path, root)
+                            ctx.mon("mounted-app")
+                            ctx.case_enum(True)
         for (form, iface, kind), (abs_dir, app) in apps.items():
             judge(ctx, audit, iface, kind, form, abs_dir, app, "")  # PATH_INFO may be empty below a mount
             ctx.case(("empty", form, iface, kind))
@@ -300,7 +319,7 @@ def replay(ctx, case):
               "package": dict(directory="static", package="pkgc07")}[form]
         abs_dir = os.path.join(pkg, "static") if form == "package" else served
         app = getattr(ns, case["app"])(**kw)
-        got = judge(ctx, audit, case["iface"], case["app"], form, abs_dir, app, case["path"])
+        got = judge(ctx, audit, case["iface"], case["app"], form, abs_dir, app, case["path"], case.get("mounted_at", ""))
         print("observed:", got, "model:", sorted(model(case["app"], abs_dir, case["path"])))
         ctx.case(1)
     finally:
